@@ -119,6 +119,17 @@ func execHops(input string) Result {
 		panic(err)
 	}
 	it := models.NewItem(uuid.New().String(), u, "")
+	if kv["under"] == "1" {
+		// the page is not the seed itself but the target of the seed's redirect: via must still be the PAGE's URL
+		su := &models.URL{Raw: "http://seed.example/start", Hops: hops}
+		if err := su.Parse(); err != nil {
+			panic(err)
+		}
+		seedItem := models.NewItem(uuid.New().String(), su, "")
+		if err := seedItem.AddChild(it, models.ItemGotRedirected); err != nil {
+			panic(err)
+		}
+	}
 	resp := &http.Response{StatusCode: status, Header: http.Header{}, Body: io.NopCloser(bytes.NewReader([]byte(b.String())))}
 	resp.Header.Set("Content-Type", ctype)
 	if status >= 300 && status < 400 {
@@ -181,7 +192,7 @@ func execHops(input string) Result {
 	if doc == "" {
 		doc = "html"
 	}
-	return Result{Term: term, Tags: []string{"doc:" + doc, fmt.Sprintf("dc:%v", dc), fmt.Sprintf("hops-vs-max:%d", cmpInt(hops, maxhops)), fmt.Sprintf("status:%d", status), fmt.Sprintf("links:%d", len(kinds))},
+	return Result{Term: term, Tags: []string{"doc:" + doc, "under-redirect:" + kv["under"], fmt.Sprintf("dc:%v", dc), fmt.Sprintf("hops-vs-max:%d", cmpInt(hops, maxhops)), fmt.Sprintf("status:%d", status), fmt.Sprintf("links:%d", len(kinds))},
 		Nontrivial: len(want) > 0}
 }
 
@@ -209,6 +220,9 @@ func genHops(r *Rng, i int, tier string) string {
 	}
 	mr := r.Intn(4)
 	s := fmt.Sprintf("hops=%d maxhops=%d dc=%d status=%d redirs=%d mr=%d links=%s", hops, maxhops, r.Intn(2), status, r.Intn(mr+2), mr, strings.Join(ks, ","))
+	if r.Chance(30) {
+		s += " under=1"
+	}
 	if x := r.Intn(10); x < 2 {
 		s += " doc=json"
 	} else if x < 4 {
